@@ -7,6 +7,7 @@ definition the structured form must print back to the (whitespace-normalised) so
 
 usage: tl2lean.py <name> <file.tl> <out.lean>      name: Api | Mt
 """
+import json
 import re
 import sys
 
@@ -14,7 +15,9 @@ PRIMS = {"int", "long", "double", "string", "bytes", "Bool", "true", "int128", "
 
 
 def lean_str(s):
-    return '"' + s.replace("\\", "\\\\").replace('"', '\\"') + '"'
+    """a byte string as a Lean `BStr` literal ⟨length, big-endian value⟩ (ASCII only)"""
+    b = s.encode("ascii")
+    return "⟨%d, 0x%s⟩" % (len(b), b.hex() if b else "0")
 
 
 def parse_type(t):
@@ -45,7 +48,7 @@ def main():
             # a definition that the file carries only as a comment (not part of the schema)
             mc = re.fullmatch(r"// ?([A-Za-z0-9_.]+)#([0-9a-fA-F]+)( [^=]*)? = ([^;]+);", line)
             if mc:
-                commented.append("(%s, 0x%s)" % (lean_str(mc.group(1)), mc.group(2)))
+                commented.append("(%s, 0x%s)" % (json.dumps(mc.group(1)), mc.group(2)))
             continue
         if not line:
             continue
@@ -76,9 +79,10 @@ def main():
                 cond = "(some %s)" % mm.group(1)
                 ptype = mm.group(2)
             params.append("⟨%s, %s, %s⟩" % (lean_str(pname), cond, parse_type(ptype)))
-        defs.append("⟨%s, 0x%s, %s, [%s], %s, %s, %s⟩" % (
-            lean_str(dname), idtext, lean_str(idtext), ", ".join(params), lean_str(result),
-            "true" if is_func else "false", lean_str(body)))
+        defs.append((int(idtext, 16), "/- %s -/ ⟨%s, 0x%s, %s, [%s], %s, %s, %s⟩" % (
+            body.replace("-/", "- /"), lean_str(dname), idtext, lean_str(idtext), ", ".join(params), lean_str(result),
+            "true" if is_func else "false", lean_str(body))))
+    defs = [t for _, t in sorted(defs, key=lambda x: x[0])]   # by id: the registry is sorted the same way
     chunk = 40
     with open(out + ".tmp", "w", encoding="utf-8") as f:
         f.write("/- GENERATED on every run from %s by tools/tl2lean.py. Never committed. -/\n" % src)
@@ -94,7 +98,7 @@ def main():
         f.write("/-- definitions that occur only inside comments of the file (name, id): not part of the schema -/\n")
         f.write("def schema%sCommented : List (String × Nat) := [%s]\n\n" % (name, ", ".join(commented)))
         f.write("/-- lines of the file that carry no constructor id (builtins) and are not translated -/\n")
-        f.write("def schema%sSkipped : List String := [%s]\n\nend Mtv.Gen\n" % (name, ", ".join(lean_str(s) for s in skipped)))
+        f.write("def schema%sSkipped : List String := [%s]\n\nend Mtv.Gen\n" % (name, ", ".join(json.dumps(s) for s in skipped)))
     import os
     new = open(out + ".tmp", encoding="utf-8").read()
     if os.path.exists(out) and open(out, encoding="utf-8").read() == new:
